@@ -6,6 +6,7 @@
 // room it is given, each exactly once, in order.
 #![allow(unused_imports, unused_variables, dead_code, unused_mut, non_snake_case)]
 use vstd::prelude::*;
+use std::collections::{HashMap, HashSet, VecDeque};   // the std collections a change to the extracted code may reach for
 verus! {
 pub type Uid = [u8; 16];
 pub mod crate_error { pub enum Error { Other() } }
